@@ -239,7 +239,12 @@ func (d *Decoder) readTypedList(tag byte) (interface{}, error) {
 		}
 
 		if item == nil {
-			break
+			// a null element: leave the zero value in place
+			if isVariableArr {
+				aryValue = reflect.Append(aryValue, reflect.Zero(aryType.Elem()))
+				holder.change(aryValue)
+			}
+			continue
 		}
 
 		v := EnsureRawValue(item)
